@@ -357,28 +357,695 @@ Qed.
 Lemma sub_group_named D rows k p x : In x (sub_group D rows k p) -> sc_name x = Some (name_idx D k).
 Proof. unfold sub_group. destruct (is_blank p); [intros []|]. intros [<-|[]]. reflexivity. Qed.
 
-Lemma add_subs_named D rows st : dt_name_ok D -> rows_structure t D CMP rows st ->
+Lemma rows_structure_known prefix kd rows st k : rows_structure t prefix kd rows st -> rows_resolved t rows ->
+  1 <= k <= length rows ->
+  has_map (Some st) = true /\ opt_is_some (by_name st (name_idx prefix k)) = true.
+Proof.
+  intros Hs Hr Hk. split; [unfold has_map; now rewrite (rs_ordered _ _ _ _ _ Hs)|].
+  destruct k as [|k]; [lia|].
+  destruct (nth_error rows k) as [row|] eqn:En; [|apply nth_error_None in En; lia].
+  destruct (row_ref t row) as [r|] eqn:Er; [|exfalso; exact (Hr row (nth_error_In _ _ En) Er)].
+  now rewrite (rs_by_name _ _ _ _ _ Hs k row r En Er).
+Qed.
+
+Lemma add_subs_named D rows st : dt_name_ok D -> rows_structure t D CMP rows st -> rows_resolved t rows ->
   forall kids c, c_dt c = Some D -> c_st c = Some st ->
   (forall x, In x kids -> exists k, 1 <= k <= length rows /\ sc_name x = Some (name_idx D k)) ->
   add_subs t TOLERANT c kids = Ok (mk_comp (c_name c) (c_dt c) (c_st c) (c_children c ++ kids)).
 Proof.
-  intros HD Hs. induction kids as [|x kids IH]; intros c Hdt Hst' Hk.
+  intros HD Hs Hr. induction kids as [|x kids IH]; intros c Hdt Hst' Hk.
   - cbn [add_subs]. rewrite app_nil_r. now destruct c.
   - cbn [add_subs]. rewrite Hdt, Hst', (dn_not_base D HD). rewrite andb_false_r. cbn [andb].
     destruct (Hk x (or_introl eq_refl)) as [k [Hkr Hn]]. rewrite Hn.
     rewrite valid_child_name_idx, streqb_refl. cbn [negb]. rewrite andb_false_r.
-    destruct k as [|k]; [lia|].
-    destruct (nth_error rows k) as [row|] eqn:En; [|apply nth_error_None in En; lia].
-    assert (Hm : has_map (Some st) = true) by (unfold has_map; now rewrite (rs_ordered _ _ _ _ _ Hs)).
+    destruct (rows_structure_known D CMP rows st k Hs Hr Hkr) as [Hm Hb].
     rewrite vcc_named_child; auto.
-    + cbn [bind negb]. rewrite card_ok_tolerant. cbn [negb].
-      rewrite IH; auto.
-      * cbn [c_name c_dt c_st c_children]. now rewrite Hdt, Hst', <- app_assoc.
-      * intros y Hy. apply Hk. now right.
-    + (* by_name finds D_(S k) *)
-      destruct (row_ref t row) as [r|] eqn:Er.
-      * now rewrite (rs_by_name _ _ _ _ _ Hs k row r En Er).
-      * exfalso. (* unresolved row: impossible for the rows we use; handled by the caller *)
-Abort.
+    cbn [bind negb]. rewrite card_ok_tolerant. cbn [negb].
+    rewrite IH; auto.
+    + cbn [c_name c_dt c_st c_children]. now rewrite <- app_assoc.
+    + intros y Hy. apply Hk. now right.
+Qed.
+
+Lemma in_combine_seq {A} (ps : list A) a k p : In (k, p) (combine (seq a (length ps)) ps) -> a <= k < a + length ps.
+Proof. intros H. apply in_combine_l in H. apply in_seq in H. lia. Qed.
+
+(* the structure of a complex datatype reference *)
+Lemma parse_structure_dt inf D rows :
+  i_dt inf = Some D -> slookup D (t_structs t) = Some rows ->
+  rows_contiguous D CMP 1 rows = true -> rows_resolved t rows ->
+  exists st, parse_structure t (SSeqDt inf) = Ok st /\ st_info st = Some inf /\ rows_structure t D CMP rows st.
+Proof.
+  intros Hi Hl Hc Hr. unfold parse_structure, view_of. rewrite Hi, Hl.
+  destruct (parse_children_structure t D CMP rows (SSeqDt inf) (Some inf) Hc Hr) as [st [E [_ [Hinfo Hs]]]].
+  exists st. auto.
+Qed.
+
+Lemma mk_component_named P j cref st info dt :
+  dt_name_ok P -> parse_structure t cref = Ok st -> st_info st = Some info -> i_dt info = Some dt ->
+  mk_component t TOLERANT (Some (name_idx P j)) None (Some cref) =
+  Ok (mk_comp (Some (name_idx P j)) (Some dt) (Some st) []).
+Proof.
+  intros HP Hp Hi Hdt. unfold mk_component.
+  rewrite (canbevaries_named false P j cref st info dt HP Hp Hi Hdt) by discriminate.
+  cbn [bind is_strict]. now rewrite andb_false_r.
+Qed.
+
+(* --- a component whose datatype D is a flat struct --- *)
+Definition subs_ok (rows : list srow) (text : str) : Prop :=
+  let ps := bsplit (ssep e) text in
+  no_trail ps /\ length ps <= length rows /\
+  forall k p, In (k, p) (indexed ps) -> sub_piece_ok rows k p.
+
+Definition sub_groups (D : str) (rows : list srow) (text : str) : list (list sub) :=
+  map (fun kp => sub_group D rows (fst kp) (snd kp)) (indexed (bsplit (ssep e) text)).
+
+Definition complex_comp (nm D : str) (rows : list srow) (st : structure) (text : str) : comp :=
+  mk_comp (Some nm) (Some D) (Some st) (concat (sub_groups D rows text)).
+
+Lemma parse_component_complex P j inf D rows st text :
+  dt_name_ok P -> dt_name_ok D -> i_dt inf = Some D ->
+  parse_structure t (SSeqDt inf) = Ok st -> st_info st = Some inf -> rows_structure t D CMP rows st ->
+  flat_rows D rows -> subs_ok rows text ->
+  parse_component t TOLERANT e leaf text (Some (name_idx P j)) None (Some (SSeqDt inf)) =
+  Ok (complex_comp (name_idx P j) D rows st text).
+Proof.
+  intros HP HD Hi Hp Hinfo Hs Hf [Ht [Hlen Hok]]. unfold parse_component.
+  rewrite (mk_component_named P j (SSeqDt inf) st inf D HP Hp Hinfo Hi). cbn [bind c_dt c_st].
+  unfold parse_subcomponents.
+  assert (E : parse_subcomponents_aux t TOLERANT leaf (Some D) (Some st) (indexed (bsplit (ssep e) text)) =
+              Ok (concat (sub_groups D rows text)))
+    by exact (parse_subs_named D rows st HD Hf Hs (bsplit (ssep e) text) 0 Hlen Hok).
+  rewrite E.
+  cbn [bind is_strict negb andb]. rewrite (dn_not_base D HD). cbn [andb].
+  rewrite (add_subs_named D rows st HD Hs (flat_rows_resolved D rows Hf)); [reflexivity|reflexivity|reflexivity|].
+  intros x Hx. apply in_concat in Hx. destruct Hx as [g [Hg Hx]].
+  apply in_map_iff in Hg. destruct Hg as [[k p] [<- Hkp]]. cbn [fst snd] in Hx.
+  exists k. split; [|now apply (sub_group_named D rows k p)].
+  apply in_combine_seq in Hkp. unfold str in *. lia.
+Qed.
+
+Lemma sub_piece_group D rows k p : sub_piece_ok rows k p -> piece_group enc_sub p (sub_group D rows k p).
+Proof.
+  unfold sub_group. intros [->|[Hb _]]; [left; split; reflexivity|].
+  rewrite Hb. right. eexists. split; reflexivity.
+Qed.
+
+Lemma ordered_of_rows prefix kd rows st : rows_structure t prefix kd rows st ->
+  ordered_of (Some st) = map (name_idx prefix) (seq 1 (length rows)).
+Proof. intros H. unfold ordered_of. now rewrite (rs_ordered _ _ _ _ _ H). Qed.
+
+Lemma names_no_ST prefix a n : ~ In (unbs "ST") (map (name_idx prefix) (seq a n)).
+Proof. intros H. apply in_map_iff in H. destruct H as [k [E _]]. exact (name_idx_not_ST _ _ E). Qed.
+
+Lemma enc_comp_complex nm D rows st text :
+  dt_name_ok D -> rows_structure t D CMP rows st -> subs_ok rows text ->
+  enc_comp t e (complex_comp nm D rows st text) = text.
+Proof.
+  intros HD Hs [Ht [Hlen Hok]]. unfold enc_comp, complex_comp. cbn [c_dt c_st c_children opt_is_none].
+  rewrite (dn_not_base D HD). cbn [orb].
+  rewrite (level_codec sc_name enc_sub (ssep e) (Some st) (bsplit (ssep e) text) (sub_groups D rows text)).
+  - apply bjoin_bsplit.
+  - rewrite (ordered_of_rows D CMP rows st Hs). apply name_idx_NoDup.
+  - rewrite (ordered_of_rows D CMP rows st Hs). apply names_no_ST.
+  - rewrite (ordered_of_rows D CMP rows st Hs). unfold sub_groups, indexed.
+    apply (groups_ok_indexed sc_name D (sub_group D rows)); [|exact Hlen].
+    intros k p x. apply sub_group_named.
+  - unfold sub_groups, indexed. apply Forall2_indexed_pieces. intros k p Hkp.
+    apply sub_piece_group. now apply Hok.
+  - exact Ht.
+Qed.
+
+(* --- a component that is a base-typed leaf of its parent's struct --- *)
+Lemma base_not_varies b : base (Some b) = true -> is_varies (Some b) = false.
+Proof.
+  intros H. unfold is_varies, opt_eqb. destruct (streqb_spec b (unbs "varies")) as [E|]; [|reflexivity].
+  subst b. assert (X : base (Some (unbs "varies")) = true) by exact H. rewrite Hvar in X. discriminate.
+Qed.
+
+Definition leaf_comp (nm b : str) (sto : option structure) (text : str) : comp :=
+  let ps := bsplit (ssep e) text in
+  mk_comp (Some nm) (if Nat.ltb 1 (length ps) then None else Some b) sto (map (st_sub b) ps).
+
+Lemma parse_component_leaf P j i b text :
+  dt_name_ok P -> i_dt i = Some b -> base (Some b) = true -> subs_fix e leaf b text ->
+  parse_component t TOLERANT e leaf text (Some (name_idx P j)) None (Some (SLeaf i)) =
+  Ok (leaf_comp (name_idx P j) b (Some (mk_structure (SLeaf i) None [] [] [] (Some i))) text).
+Proof.
+  intros HP Hi Hb Hs. unfold parse_component.
+  rewrite (mk_component_named P j (SLeaf i) _ i b HP (leaf_structure i) eq_refl Hi). cbn [bind c_dt c_st].
+  rewrite (parse_subcomponents_unnamed t e leaf (Some b) _ text); cbn [dflt_dt]; auto using base_not_varies.
+  2:{ now rewrite Hb. }
+  cbn [bind is_strict negb andb]. rewrite Hb. cbn [andb]. rewrite map_length.
+  unfold leaf_comp. cbv zeta. unfold str.
+  destruct (Nat.ltb 1 (length (bsplit (ssep e) text))) eqn:L.
+  - rewrite add_subs_unnamed_none by auto. reflexivity.
+  - destruct (bsplit (ssep e) text) as [|s0 [|s' r]] eqn:E.
+    + exfalso. exact (bsplit_ne _ _ E).
+    + cbn [map]. rewrite add_subs_unnamed_one by auto. reflexivity.
+    + discriminate.
+Qed.
+
+Lemma enc_comp_leaf nm b sto text : base (Some b) = true -> enc_comp t e (leaf_comp nm b sto text) = text.
+Proof.
+  intros Hb. unfold enc_comp, leaf_comp. cbv zeta. cbn [c_dt c_children].
+  assert (base (if Nat.ltb 1 (length (bsplit (ssep e) text)) then None else Some b)
+          || opt_is_none (if Nat.ltb 1 (length (bsplit (ssep e) text)) then None else Some b) = true) as ->.
+  { destruct (Nat.ltb 1 _); [reflexivity|now rewrite Hb]. }
+  rewrite enc_slots_all.
+  - rewrite map_enc_st_sub. apply bjoin_bsplit.
+  - intros H. apply map_eq_nil in H. exact (bsplit_ne _ _ H).
+Qed.
+
+(* ---------- named components of a field whose datatype P is a (two-level) struct ---------- *)
+
+(* parse then encode of the component text s at position j gives s back, under the name P_j *)
+Definition comp_rt (P : str) (st : structure) (j : nat) (s : str) (c : comp) : Prop :=
+  parse_component t TOLERANT e leaf s (Some (name_idx P j)) None (ref_in (Some st) (name_idx P j)) = Ok c /\
+  c_name c = Some (name_idx P j) /\ enc_comp t e c = s.
+
+Definition comp_piece_rt (P : str) (st : structure) (j : nat) (s : str) : Prop :=
+  s = [] \/ (is_blank s = false /\ exists c, comp_rt P st j s c).
+
+Lemma parse_comps_named P rows st : dt_name_ok P -> rows_structure t P CMP rows st ->
+  forall cs a,
+  (forall j s, In (j, s) (combine (seq (S a) (length cs)) cs) -> comp_piece_rt P st j s) ->
+  exists gs,
+    parse_components_aux t TOLERANT e leaf (Some P) (Some st) (combine (seq (S a) (length cs)) cs) = Ok (concat gs) /\
+    Forall2 (piece_group (enc_comp t e)) cs gs /\
+    groups_ok c_name (map (name_idx P) (seq (S a) (length cs))) gs.
+Proof.
+  intros HP Hs. induction cs as [|s cs IH]; intros a Hok.
+  - exists []. repeat split; constructor.
+  - destruct (IH (S a)) as [gs [E [F G]]]. { intros j q Hq. apply Hok. now right. }
+    cbn [length seq combine parse_components_aux].
+    rewrite (dn_not_base P HP), (dn_is_varies P HP). cbn [opt_is_none orb str_of_opt].
+    assert (Hm : has_map (Some st) = true) by (unfold has_map; now rewrite (rs_ordered _ _ _ _ _ Hs)).
+    rewrite Hm. rewrite (name_idx_not_varies_us P (S a) (dn_not_varies P HP)). rewrite !orb_false_r.
+    destruct (Hok (S a) s (or_introl eq_refl)) as [->|[Hb [c [Hp [Hn He]]]]].
+    + exists ([] :: gs). cbn [is_blank strip strip_by rstrip_by lstrip_by rev negb concat app].
+      split; [exact E|]. split; [constructor; [left; split; reflexivity|exact F]|].
+      cbn [map groups_ok]. split; [intros x []|exact G].
+    + exists ([c] :: gs). rewrite Hb. cbn [negb]. rewrite Hp, E. cbn [bind concat app].
+      split; [reflexivity|]. split; [constructor; [right; exists c; auto|exact F]|].
+      cbn [map groups_ok]. split; [intros x [<-|[]]; exact Hn|exact G].
+Qed.
+
+Lemma groups_ok_more {A} (nm : A -> option str) ks more gs : groups_ok nm ks gs -> groups_ok nm (ks ++ more) gs.
+Proof.
+  revert ks. induction gs as [|g gs IH]; intros ks H; [exact I|].
+  destruct ks as [|k ks]; [destruct H|]. destruct H as [Hg H]. cbn [app groups_ok]. split; [exact Hg|now apply IH].
+Qed.
+
+Lemma add_comps_named P rows st : dt_name_ok P -> rows_structure t P CMP rows st -> rows_resolved t rows ->
+  forall kids f, f_dt f = Some P -> f_st f = Some st ->
+  (forall x, In x kids -> exists k, 1 <= k <= length rows /\ c_name x = Some (name_idx P k)) ->
+  add_comps t TOLERANT f kids = Ok (mk_field_rec (f_name f) (f_dt f) (f_st f) (f_children f ++ kids)).
+Proof.
+  intros HP Hs Hr. induction kids as [|x kids IH]; intros f Hdt Hst' Hk.
+  - cbn [add_comps]. rewrite app_nil_r. now destruct f.
+  - cbn [add_comps]. rewrite Hdt, Hst', (dn_not_base P HP). rewrite andb_false_r. cbn [andb].
+    destruct (Hk x (or_introl eq_refl)) as [k [Hkr Hn]]. rewrite Hn.
+    destruct (rows_structure_known P CMP rows st k Hs Hr Hkr) as [Hm Hb].
+    rewrite vcc_named_child; auto.
+    cbn [bind negb]. rewrite card_ok_tolerant. cbn [negb].
+    rewrite IH; auto.
+    + cbn [f_name f_dt f_st f_children]. now rewrite <- app_assoc.
+    + intros y Hy. apply Hk. now right.
+Qed.
+
+Lemma groups_ok_members {A} (nm : A -> option str) prefix : forall gs a n x,
+  groups_ok nm (map (name_idx prefix) (seq a n)) gs -> In x (concat gs) ->
+  exists k, a <= k < a + n /\ nm x = Some (name_idx prefix k).
+Proof.
+  intros gs a n x H Hx. destruct (groups_ok_in nm _ _ x H Hx) as [k0 [Hk0 E]].
+  apply in_map_iff in Hk0. destruct Hk0 as [k [<- Hk]]. apply in_seq in Hk. exists k. split; [lia|exact E].
+Qed.
+
+(* the components text of one repetition of a field of datatype P *)
+Definition comps_ok (P : str) (st : structure) (rows : list srow) (r : str) : Prop :=
+  r = [] \/
+  (let cs := bsplit (csep e) r in
+   no_trail cs /\ length cs <= length rows /\
+   forall j s, In (j, s) (indexed cs) -> comp_piece_rt P st j s).
+
+Lemma parse_field_complex text name ref fv n P rows st :
+  field_ctor t name ref fv = Ok (mk_field_rec (Some n) (Some P) (Some st) []) -> is_msh12 name = false ->
+  not_msh12 n -> dt_name_ok P -> rows_structure t P CMP rows st -> rows_resolved t rows ->
+  comps_ok P st rows text ->
+  exists x, parse_field t TOLERANT e leaf text name ref fv = Ok x /\ f_name x = Some n /\
+            enc_field t e x = Ok text.
+Proof.
+  intros Hc Hm Hn HP Hs Hr Hok. rewrite parse_field_unfold, Hc, Hm. cbn [bind f_dt f_st].
+  unfold parse_components.
+  assert (Henc : forall gs, enc_field t e (mk_field_rec (Some n) (Some P) (Some st) (concat gs)) =
+                            Ok (enc_slots (enc_comp t e) (csep e) (generic_slots c_name (Some st) (concat gs)))).
+  { intros gs. unfold enc_field. cbn [f_name f_dt f_st f_children]. unfold not_msh12 in Hn. rewrite Hn.
+    now rewrite (dn_is_varies P HP), (dn_not_base P HP). }
+  destruct Hok as [->|[Ht [Hlen Hok]]].
+  - (* an empty repetition: a field without components *)
+    assert (Hm' : has_map (Some st) = true) by (unfold has_map; now rewrite (rs_ordered _ _ _ _ _ Hs)).
+    rewrite bsplit_nil. change (indexed [[]]) with [(1, @nil byte)]. cbn [parse_components_aux].
+    rewrite (dn_not_base P HP), (dn_is_varies P HP). cbn [opt_is_none orb str_of_opt].
+    rewrite Hm', (name_idx_not_varies_us P 1 (dn_not_varies P HP)).
+    change (is_blank []) with true. cbn [negb orb bind is_strict andb length Nat.ltb Nat.leb add_comps f_name f_dt f_st f_children].
+    exists (mk_field_rec (Some n) (Some P) (Some st) []).
+    split; [reflexivity|]. split; [reflexivity|].
+    pose proof (Henc []) as H0. cbn [concat] in H0. rewrite H0. f_equal.
+    apply (level_codec c_name (enc_comp t e) (csep e) (Some st) [] []).
+    + rewrite (ordered_of_rows P CMP rows st Hs). apply name_idx_NoDup.
+    + rewrite (ordered_of_rows P CMP rows st Hs). apply names_no_ST.
+    + exact I.
+    + constructor.
+    + apply no_trail_nil.
+  - destruct (parse_comps_named P rows st HP Hs (bsplit (csep e) text) 0 Hok) as [gs [E [F G]]].
+    assert (E' : parse_components_aux t TOLERANT e leaf (Some P) (Some st) (indexed (bsplit (csep e) text)) = Ok (concat gs))
+      by exact E.
+    rewrite E'. cbn [bind is_strict negb andb]. rewrite (dn_not_base P HP). cbn [andb].
+    assert (GK : groups_ok c_name (map (name_idx P) (seq 1 (length rows))) gs).
+    { replace (length rows) with (length (bsplit (csep e) text) + (length rows - length (bsplit (csep e) text))) by lia.
+      rewrite seq_app, map_app. now apply groups_ok_more. }
+    rewrite (add_comps_named P rows st HP Hs Hr); [|reflexivity|reflexivity|].
+    2:{ intros x Hx. destruct (groups_ok_members c_name P gs 1 (length rows) x GK Hx) as [k [Hk Ek]].
+        exists k. split; [lia|exact Ek]. }
+    cbn [f_name f_dt f_st f_children app]. eexists. split; [reflexivity|]. split; [reflexivity|].
+    rewrite (Henc gs). f_equal.
+    rewrite (level_codec c_name (enc_comp t e) (csep e) (Some st) (bsplit (csep e) text) gs); auto.
+    + apply bjoin_bsplit.
+    + rewrite (ordered_of_rows P CMP rows st Hs). apply name_idx_NoDup.
+    + rewrite (ordered_of_rows P CMP rows st Hs). apply names_no_ST.
+    + now rewrite (ordered_of_rows P CMP rows st Hs).
+Qed.
 
 End Named.
+
+(* ------------------------------------------------------------------ *)
+(* the segment level, generic in how each field round-trips             *)
+
+Lemma Forall_exists_Forall2 {A B} (R : A -> B -> Prop) l :
+  Forall (fun a => exists b, R a b) l -> exists bs, Forall2 R l bs.
+Proof.
+  induction 1 as [|a l [b Hb] _ [bs IH]]; [exists []; constructor|]. exists (b :: bs). now constructor.
+Qed.
+
+Lemma Forall2_impl {A B} (R S : A -> B -> Prop) l m :
+  (forall a b, R a b -> S a b) -> Forall2 R l m -> Forall2 S l m.
+Proof. intros H. induction 1; constructor; auto. Qed.
+
+Lemma Forall2_length' {A B} (R : A -> B -> Prop) l m : Forall2 R l m -> length l = length m.
+Proof. induction 1; cbn; congruence. Qed.
+
+Section SegLevel.
+Variable t : tables.
+Variable e : ec.
+Variable leaf : option str -> str -> result str.
+Hypothesis Hec : ec_ok e.
+
+Variable sn : str.
+Hypothesis H3 : length sn = 3.
+Hypothesis Hup : upper sn = sn.
+Hypothesis Hmsh : streqb sn (unbs "MSH") = false.
+
+Lemma sn_no_msh : no_msh sn.
+Proof.
+  destruct sn as [|a [|b [|c [|]]]]; try discriminate. apply no_msh_of. rewrite Hup.
+  intros E. rewrite E in Hmsh. discriminate.
+Qed.
+
+Lemma sn_not_msh12 i : not_msh12 (name_idx sn i).
+Proof.
+  unfold not_msh12, opt_eqb. destruct (sn_no_msh i) as [M2 M1].
+  rewrite name_idx_upper, Hup in M1, M2. now rewrite M1, M2.
+Qed.
+
+Lemma sn_is_msh12 i : is_msh12 (Some (name_idx sn i)) = false.
+Proof. unfold is_msh12. cbn [option_map]. rewrite name_idx_upper, Hup. apply sn_not_msh12. Qed.
+
+Lemma bjoin_sn fs : bjoin (fsep e) (sn :: fs) = sn ++ match fs with [] => [] | _ => fsep e :: bjoin (fsep e) fs end.
+Proof. destruct fs; [cbn [bjoin join]; now rewrite app_nil_r|reflexivity]. Qed.
+
+Lemma seg_name_sn fs : seg_name_of (bjoin (fsep e) (sn :: fs)) = sn.
+Proof. rewrite bjoin_sn. unfold seg_name_of. rewrite <- H3. apply take_app. Qed.
+
+Lemma seg_rest_sn fs : seg_rest_of (bjoin (fsep e) (sn :: fs)) = bjoin (fsep e) fs.
+Proof.
+  unfold seg_rest_of. fold (seg_name_of (bjoin (fsep e) (sn :: fs))). rewrite seg_name_sn, Hup, Hmsh.
+  rewrite bjoin_sn. destruct sn as [|a [|b [|c [|]]]]; try discriminate. destruct fs; reflexivity.
+Qed.
+
+(* one repetition text r of field i parses to x, which is named <SEG>_i and encodes to r *)
+Definition field_rt (st : structure) (fv : bool) (i : nat) (r : str) (x : field) : Prop :=
+  parse_field t TOLERANT e leaf r (Some (name_idx sn i))
+              (if has_map (Some st) then ref_in (Some st) (name_idx sn i) else None) fv = Ok x /\
+  f_name x = Some (name_idx sn i) /\ enc_field t e x = Ok r.
+
+(* a field text that round-trips at position i *)
+Definition tfield (st : structure) (fv : bool) (i : nat) (f : str) : Prop :=
+  bmem (fsep e) f = false /\ bmem CR f = false /\
+  (f = [] \/ (is_blank f = false /\ Forall (fun r => exists x, field_rt st fv i r x) (bsplit (rsep e) f))).
+
+(* the groups of field objects a list of field texts parses to *)
+Definition groups_rel (st : structure) (fv : bool) (i : nat) (f : str) (g : list field) : Prop :=
+  (f = [] /\ g = []) \/ (is_blank f = false /\ Forall2 (field_rt st fv i) (bsplit (rsep e) f) g).
+
+Lemma tfield_groups st fv : forall fs a,
+  (forall i f, In (i, f) (combine (seq a (length fs)) fs) -> tfield st fv i f) ->
+  exists gs, Forall2 (fun p g => groups_rel st fv (fst p) (snd p) g) (combine (seq a (length fs)) fs) gs.
+Proof.
+  induction fs as [|f fs IH]; intros a H; [exists []; constructor|].
+  destruct (IH (S a)) as [gs G]. { intros i q Hq. apply H. now right. }
+  destruct (H a f (or_introl eq_refl)) as [_ [_ [->|[Hb Hr]]]].
+  - exists ([] :: gs). cbn [length seq combine]. constructor; [left; split; reflexivity|exact G].
+  - destruct (Forall_exists_Forall2 _ _ Hr) as [g Hg].
+    exists (g :: gs). cbn [length seq combine]. constructor; [right; split; assumption|exact G].
+Qed.
+
+Lemma groups_rel_field_group st fv i f g : groups_rel st fv i f g ->
+  field_group t e leaf sn (Some st) fv i f g.
+Proof.
+  intros [[-> ->]|[Hb Hr]]; [left; split; reflexivity|right]. split; [exact Hb|].
+  apply parse_reps_all. eapply Forall2_impl; [|exact Hr]. intros r x [Hp _]. exact Hp.
+Qed.
+
+Lemma groups_rel_enc st fv i f g : groups_rel st fv i f g -> group_enc t e f g.
+Proof.
+  intros [[-> ->]|[Hb Hr]]; [left; split; reflexivity|right]. split.
+  - intros ->. inversion Hr as [E|]. exact (bsplit_ne _ _ (eq_sym E)).
+  - exists (bsplit (rsep e) f). split; [|apply bjoin_bsplit].
+    apply enc_reps_all. clear Hb. induction Hr as [|r x rs xs [_ [_ He]] _ IH]; constructor; assumption.
+Qed.
+
+Lemma groups_rel_named st fv : forall l gs a, map fst l = seq a (length l) ->
+  Forall2 (fun p g => groups_rel st fv (fst p) (snd p) g) l gs -> groups_named sn a gs.
+Proof.
+  induction l as [|[i f] l IH]; intros gs a Hl H; inversion H as [|? g ? gs' Hg Hgs]; subst; [exact I|].
+  cbn [map fst length seq] in Hl. injection Hl as -> Hl. cbn [groups_named]. split.
+  - intros x Hx. destruct Hg as [[_ ->]|[_ Hr]]; [destruct Hx|]. cbn [fst snd] in Hr.
+    clear -Hr Hx. induction Hr as [|r y rs ys [_ [Hn _]] _ IH]; [destruct Hx|].
+    destruct Hx as [<-|Hx]; [exact Hn|now apply IH].
+  - now apply (IH gs' (S a)).
+Qed.
+
+Theorem seg_roundtrip st (inf : bool) n (fs : list str) :
+  mk_segment t sn None = Ok (mk_seg sn st inf (N.of_nat n) (N.of_nat n) []) ->
+  st_ordered st = Some (map (name_idx sn) (seq 1 n)) ->
+  (forall i, 1 <= i <= n -> opt_is_some (by_name st (name_idx sn i)) = true) ->
+  no_trail fs -> length fs <= n ->
+  (forall i f, In (i, f) (indexed fs) -> tfield st inf i f) ->
+  exists s gs,
+    parse_segment t TOLERANT e leaf (bjoin (fsep e) (sn :: fs)) None = Ok s /\
+    s_children s = concat gs /\
+    Forall2 (fun p g => groups_rel st inf (fst p) (snd p) g) (indexed fs) gs /\
+    enc_segment t e s false = Ok (bjoin (fsep e) (sn :: fs)).
+Proof.
+  intros Hmk Hord Hby Ht Hlen Hf.
+  destruct (tfield_groups st inf fs 1 Hf) as [gs G]. fold (indexed fs) in G.
+  assert (Hnamed : groups_named sn 1 gs).
+  { apply (groups_rel_named st inf (indexed fs) gs 1); [|exact G].
+    rewrite indexed_fst. unfold indexed. rewrite combine_length, seq_length, Nat.min_id. reflexivity. }
+  assert (Hgl : length gs = length fs).
+  { rewrite <- (Forall2_length' _ _ _ G). unfold indexed. rewrite combine_length, seq_length. apply Nat.min_id. }
+  set (last := last_idx inf 1 gs (N.of_nat n)).
+  exists (mk_seg sn st inf (N.of_nat n) last (concat gs)), gs.
+  assert (Hparse : parse_segment t TOLERANT e leaf (bjoin (fsep e) (sn :: fs)) None =
+                   Ok (mk_seg sn st inf (N.of_nat n) last (concat gs))).
+  { unfold parse_segment. rewrite seg_name_sn, Hmk. cbn [bind]. unfold parse_segment_in.
+    rewrite seg_name_sn, seg_rest_sn. cbn [s_st s_inf]. unfold parse_fields.
+    assert (Hcr : bmem CR (bjoin (fsep e) fs) = false).
+    { apply bmem_bjoin.
+      - intros E. destruct Hec as [_ Hs]. specialize (Hs (fsep e) (or_introl eq_refl)). rewrite <- E in Hs. discriminate.
+      - rewrite Forall_forall. intros f Hin. apply (In_nth _ _ []) in Hin. destruct Hin as [k [Hk <-]].
+        assert (In (S k, nth k fs []) (indexed fs)) as Hi.
+        { unfold indexed. replace (S k, nth k fs []) with (nth k (combine (seq 1 (length fs)) fs) (0, [])).
+          - apply nth_In. rewrite combine_length, seq_length, Nat.min_id. exact Hk.
+          - rewrite combine_nth by apply seq_length. rewrite seq_nth by exact Hk. reflexivity. }
+        now destruct (Hf _ _ Hi) as [_ [Hc _]]. }
+    rewrite (strip_cr_none _ Hcr).
+    assert (Hsp : bsplit (fsep e) (bjoin (fsep e) fs) = match fs with [] => [[]] | _ => fs end).
+    { apply bsplit_bjoin'. rewrite forallb_forall. intros f Hin. apply (In_nth _ _ []) in Hin.
+      destruct Hin as [k [Hk <-]].
+      assert (In (S k, nth k fs []) (indexed fs)) as Hi.
+      { unfold indexed. replace (S k, nth k fs []) with (nth k (combine (seq 1 (length fs)) fs) (0, [])).
+        - apply nth_In. rewrite combine_length, seq_length, Nat.min_id. exact Hk.
+        - rewrite combine_nth by apply seq_length. rewrite seq_nth by exact Hk. reflexivity. }
+      destruct (Hf _ _ Hi) as [Hs _]. now apply nosep_of_bmem. }
+    rewrite Hsp. destruct fs as [|f0 fs0].
+    - inversion G; subst. cbn [indexed length seq combine parse_fields_aux].
+      destruct (sn_no_msh 1) as [M2 M1]. rewrite M1. change (is_blank []) with true.
+      cbn [negb bind app add_fields concat last_idx]. subst last. reflexivity.
+    - erewrite parse_fields_aux_groups; [|exact sn_no_msh|].
+      2:{ eapply Forall2_impl; [|exact G]. intros p g. apply groups_rel_field_group. }
+      cbn [bind]. rewrite (add_fields_groups t sn st inf (N.of_nat n) gs 1 (N.of_nat n) []); auto.
+      right. intros i Hi. apply Hby. lia. }
+  split; [exact Hparse|]. split; [reflexivity|]. split; [exact G|].
+  apply (enc_segment_groups t e sn st inf n last gs fs); auto.
+  - subst last. apply last_idx_ge.
+  - destruct inf.
+    + subst last. pose proof (last_idx_ge true gs 1 (N.of_nat n)). lia.
+    + lia.
+  - clear -G. unfold indexed in G. revert G. generalize 1. revert gs.
+    induction fs as [|f fs IH]; intros gs a G; inversion G; subst; constructor.
+    + eapply groups_rel_enc; eauto.
+    + eapply IH; eauto.
+Qed.
+
+End SegLevel.
+
+(* ------------------------------------------------------------------ *)
+(* table-driven segments                                                *)
+
+Section TableSeg.
+Variable t : tables.
+Variable e : ec.
+Variable leaf : option str -> str -> result str.
+Hypothesis Hec : ec_ok e.
+
+Notation base := (base t).
+Hypothesis Hst : base (Some (unbs "ST")) = true.
+Hypothesis Hvar : base (Some (unbs "varies")) = false.
+
+(* --- what the tables must satisfy (Prop form; RoundTripTables.v decides it by computation) --- *)
+Definition comp_row_ok (row : srow) : Prop :=
+  (exists i b, row_ref t row = Some (SLeaf i) /\ i_dt i = Some b /\ base (Some b) = true) \/
+  (exists i D2 rows2, row_ref t row = Some (SSeqDt i) /\ i_dt i = Some D2 /\
+                      slookup D2 (t_structs t) = Some rows2 /\ dt_name_ok t D2 /\ flat_rows t D2 rows2).
+Definition good_struct (D : str) (rows : list srow) : Prop :=
+  dt_name_ok t D /\ rows_contiguous D CMP 1 rows = true /\ forall row, In row rows -> comp_row_ok row.
+
+Lemma good_struct_resolved D rows : good_struct D rows -> rows_resolved t rows.
+Proof.
+  intros [_ [_ H]] x Hx E. destruct (H x Hx) as [[i [b [E' _]]]|[i [D2 [rows2 [E' _]]]]]; congruence.
+Qed.
+
+(* --- Field(name, reference=table reference) --- *)
+Lemma mk_field_ref n0 r st : upper n0 = n0 -> parse_structure t r = Ok st ->
+  field_ctor t (Some n0) (Some r) false = Ok (mk_field_rec (Some n0) (st_dt (Some st)) (Some st) []) /\
+  field_ctor t (Some n0) (Some r) true = Ok (mk_field_rec (Some n0) (st_dt (Some st)) (Some st) []).
+Proof.
+  intros Hu Hp.
+  assert (E : mk_field t TOLERANT (Some n0) None (Some r) = Ok (mk_field_rec (Some n0) (st_dt (Some st)) (Some st) [])).
+  { unfold mk_field. cbn [is_strict andb]. rewrite is_varies_none. cbn [andb].
+    unfold structure_for. rewrite Hu, Hp. cbn [bind]. reflexivity. }
+  unfold field_ctor. rewrite E. split; reflexivity.
+Qed.
+
+Lemma field_ctor_ref n0 r st fv : upper n0 = n0 -> parse_structure t r = Ok st ->
+  field_ctor t (Some n0) (Some r) fv = Ok (mk_field_rec (Some n0) (st_dt (Some st)) (Some st) []).
+Proof. intros Hu Hp. destruct (mk_field_ref n0 r st Hu Hp). now destruct fv. Qed.
+
+(* --- Segment(name) for a table segment --- *)
+Lemma last_opt_names prefix n :
+  last_opt (map (name_idx prefix) (seq 1 (S n))) = Some (name_idx prefix (S n)).
+Proof. unfold last_opt. rewrite seq_S, map_app, rev_app_distr. reflexivity. Qed.
+
+Lemma mk_segment_table sn rows :
+  length sn = 3 -> upper sn = sn -> valid_z_segment_name sn = false ->
+  slookup sn (t_segments t) = Some (SSeqIn false rows None) ->
+  rows_contiguous sn FIE 1 rows = true -> rows_resolved t rows ->
+  (forall row, In row rows -> exists r, row_ref t row = Some r /\ ref_info r <> None) ->
+  exists st inf,
+    mk_segment t sn None = Ok (mk_seg sn st inf (N.of_nat (length rows)) (N.of_nat (length rows)) []) /\
+    rows_structure t sn FIE rows st.
+Proof.
+  intros H3 Hu Hz Hl Hc Hr Hinfo. unfold mk_segment. rewrite Hz, Hu.
+  unfold structure_for, load_reference. cbn [table_of]. rewrite Hl.
+  unfold parse_structure, view_of.
+  destruct (parse_children_structure t sn FIE rows (SSeqIn false rows None) None Hc Hr) as [st [E [_ [_ Hs]]]].
+  rewrite E. cbn [bind]. rewrite (rs_ordered _ _ _ _ _ Hs).
+  destruct (length rows) as [|n] eqn:En.
+  - exists st, false. split; [reflexivity|exact Hs].
+  - rewrite last_opt_names.
+    destruct (nth_error rows n) as [row|] eqn:Er; [|apply nth_error_None in Er; lia].
+    destruct (Hinfo row (nth_error_In _ _ Er)) as [r [Hrr Hri]].
+    rewrite (rs_by_name _ _ _ _ _ Hs n row r Er Hrr). cbn [se_name se_ref].
+    rewrite (name_idx3_drop4 sn (S n) H3), nat_to_str_py_int, nat_to_str_py_val.
+    unfold rt_info. destruct (ref_info r) as [i|]; [|congruence].
+    eexists st, _. split; [reflexivity|exact Hs].
+Qed.
+
+(* --- typed conditions on texts --- *)
+
+(* the text s of a component described by the struct row `row` *)
+Definition comp_text_ok (row : srow) (s : str) : Prop :=
+  match row_ref t row with
+  | Some (SLeaf i) => match i_dt i with Some b => subs_fix e leaf b s | None => False end
+  | Some (SSeqDt i) =>
+      match i_dt i with
+      | Some D2 => match slookup D2 (t_structs t) with Some rows2 => subs_ok t e leaf rows2 s | None => False end
+      | None => False
+      end
+  | _ => False
+  end.
+
+(* the components text r of one repetition of a field of struct datatype (rows) *)
+Definition tcomps_ok (rows : list srow) (r : str) : Prop :=
+  r = [] \/
+  (let cs := bsplit (csep e) r in
+   no_trail cs /\ length cs <= length rows /\
+   forall j s, In (j, s) (indexed cs) ->
+     s = [] \/ (is_blank s = false /\ exists row, nth_error rows (pred j) = Some row /\ comp_text_ok row s)).
+
+(* one repetition text of a field whose table reference is fr *)
+Definition rep_text_ok (fr : sref) (r : str) : Prop :=
+  match fr with
+  | SLeaf i =>
+      match i_dt i with
+      | Some b => (base (Some b) = true /\ comps_fix e leaf b r) \/
+                  (b = unbs "varies" /\ vcomps_fix e leaf r)
+      | None => False
+      end
+  | SSeqDt i =>
+      match i_dt i with
+      | Some D => match slookup D (t_structs t) with Some rows => tcomps_ok rows r | None => False end
+      | None => False
+      end
+  | _ => False
+  end.
+
+(* --- components --- *)
+Lemma comp_rt_of_row P rows st j row s :
+  good_struct P rows -> rows_structure t P CMP rows st ->
+  nth_error rows (pred j) = Some row -> 1 <= j -> comp_text_ok row s ->
+  exists c, comp_rt t e leaf P st j s c.
+Proof.
+  intros [HP [_ Hrows]] Hs Hn Hj Hok. destruct j as [|j]; [lia|]. cbn [pred] in Hn.
+  unfold comp_text_ok in Hok. unfold comp_rt.
+  destruct (Hrows row (nth_error_In _ _ Hn)) as [[i [b [Er [Ei Hb]]]]|[i [D2 [rows2 [Er [Ei [Hl [HD2 Hf]]]]]]]];
+    rewrite Er, Ei in Hok; destruct (rows_structure_ref_in t P CMP rows st j row _ Hs Hn Er) as [_ ->].
+  - eexists. split; [apply (parse_component_leaf t e leaf Hvar P (S j) i b s HP Ei Hb Hok)|].
+    split; [reflexivity|now apply enc_comp_leaf].
+  - rewrite Hl in Hok.
+    destruct (parse_structure_dt t i D2 rows2 Ei Hl (proj1 Hf) (flat_rows_resolved t D2 rows2 Hf)) as [st2 [Hp [Hinfo Hs2]]].
+    eexists. split; [apply (parse_component_complex t e leaf P (S j) i D2 rows2 st2 s HP HD2 Ei Hp Hinfo Hs2 Hf Hok)|].
+    split; [reflexivity|apply (enc_comp_complex t e leaf _ D2 rows2 st2 s HD2 Hs2 Hok)].
+Qed.
+
+Lemma comps_ok_of_text P rows st r :
+  good_struct P rows -> rows_structure t P CMP rows st -> tcomps_ok rows r -> comps_ok t e leaf P st rows r.
+Proof.
+  intros Hg Hs [->|[Ht [Hlen Hok]]]; [now left|right]. split; [exact Ht|]. split; [exact Hlen|].
+  intros j s Hjs. destruct (Hok j s Hjs) as [->|[Hb [row [Hn Hc]]]]; [now left|right]. split; [exact Hb|].
+  apply (comp_rt_of_row P rows st j row s Hg Hs Hn); [|exact Hc].
+  apply in_combine_seq in Hjs. lia.
+Qed.
+
+(* --- fields --- *)
+Section OneSeg.
+Variable sn : str.
+Hypothesis H3 : length sn = 3.
+Hypothesis Hup : upper sn = sn.
+Hypothesis Hmsh : streqb sn (unbs "MSH") = false.
+Variable srows : list srow.
+Variable sst : structure.
+Hypothesis Hsst : rows_structure t sn FIE srows sst.
+
+Definition field_row_ok (row : srow) : Prop :=
+  exists fr, row_ref t row = Some fr /\
+    match fr with
+    | SLeaf i => True
+    | SSeqDt i => exists D rows, i_dt i = Some D /\ slookup D (t_structs t) = Some rows /\ good_struct D rows
+    | _ => False
+    end.
+
+Lemma field_rt_of_text fv i row fr r :
+  nth_error srows (pred i) = Some row -> 1 <= i -> row_ref t row = Some fr -> field_row_ok row ->
+  rep_text_ok fr r -> exists x, field_rt t e leaf sn sst fv i r x.
+Proof.
+  intros Hn Hi Hr [fr' [Hr' Hk]] Hok. rewrite Hr in Hr'. injection Hr' as <-.
+  destruct i as [|i]; [lia|]. cbn [pred] in Hn.
+  destruct (rows_structure_ref_in t sn FIE srows sst i row fr Hsst Hn Hr) as [Hm Href].
+  unfold field_rt. rewrite Hm, Href.
+  assert (Hun : upper (name_idx sn (S i)) = name_idx sn (S i)) by now rewrite name_idx_upper, Hup.
+  pose proof (sn_is_msh12 sn H3 Hup Hmsh (S i)) as M12. pose proof (sn_not_msh12 sn H3 Hup Hmsh (S i)) as N12.
+  destruct fr as [inf|inf| |]; try contradiction.
+  - (* leaf field *)
+    cbn [rep_text_ok] in Hok. destruct (i_dt inf) as [b|] eqn:Ei; [|contradiction].
+    pose proof (field_ctor_ref (name_idx sn (S i)) (SLeaf inf) _ fv Hun (leaf_structure t inf)) as Hc.
+    cbn [st_dt st_info] in Hc. rewrite Ei in Hc.
+    destruct Hok as [[Hb Hcs]|[-> Hcs]].
+    + eexists. split; [apply (parse_field_base t e leaf _ _ _ fv _ b _ Hc M12 Hb (base_not_varies t Hvar b Hb) Hcs)|].
+      split; [reflexivity|]. apply enc_field_base; auto. exact (base_not_varies t Hvar b Hb).
+    + eexists. split; [apply (parse_field_varies t e leaf Hst Hvar _ _ _ fv _ _ Hc M12 eq_refl Hcs)|].
+      split; [reflexivity|]. now apply enc_field_varies.
+  - (* struct-typed field *)
+    cbn [rep_text_ok] in Hok. destruct Hk as [D [rows [Ei [Hl Hg]]]]. rewrite Ei, Hl in Hok.
+    destruct (parse_structure_dt t inf D rows Ei Hl (proj1 (proj2 Hg)) (good_struct_resolved D rows Hg)) as [st [Hp [Hinfo Hs]]].
+    pose proof (field_ctor_ref (name_idx sn (S i)) (SSeqDt inf) st fv Hun Hp) as Hc.
+    cbn [st_dt] in Hc. rewrite Hinfo, Ei in Hc.
+    apply (parse_field_complex t e leaf _ _ _ fv _ D rows st Hc M12 N12 (proj1 Hg) Hs (good_struct_resolved D rows Hg)).
+    now apply comps_ok_of_text.
+Qed.
+
+End OneSeg.
+
+(* --- the whole segment --- *)
+
+(* a canonical field text at position i of a segment with field rows srows *)
+Definition tfield_text (srows : list srow) (i : nat) (f : str) : Prop :=
+  bmem (fsep e) f = false /\ bmem CR f = false /\
+  (f = [] \/
+   (is_blank f = false /\
+    exists row fr, nth_error srows (pred i) = Some row /\ row_ref t row = Some fr /\
+                   Forall (rep_text_ok fr) (bsplit (rsep e) f))).
+
+(* what the segment's children look like: per field text, the repetitions parsed from it *)
+Definition fields_of (sn : str) (i : nat) (f : str) (g : list field) : Prop :=
+  (f = [] /\ g = []) \/
+  (is_blank f = false /\
+   Forall2 (fun r x => f_name x = Some (name_idx sn i) /\ enc_field t e x = Ok r) (bsplit (rsep e) f) g).
+
+Theorem seg_table_roundtrip sn srows (fs : list str) :
+  length sn = 3 -> upper sn = sn -> streqb sn (unbs "MSH") = false -> valid_z_segment_name sn = false ->
+  slookup sn (t_segments t) = Some (SSeqIn false srows None) ->
+  rows_contiguous sn FIE 1 srows = true ->
+  (forall row, In row srows -> field_row_ok row) ->
+  no_trail fs -> length fs <= length srows ->
+  (forall i f, In (i, f) (indexed fs) -> tfield_text srows i f) ->
+  exists s gs,
+    parse_segment t TOLERANT e leaf (bjoin (fsep e) (sn :: fs)) None = Ok s /\
+    s_children s = concat gs /\
+    Forall2 (fun p g => fields_of sn (fst p) (snd p) g) (indexed fs) gs /\
+    enc_segment t e s false = Ok (bjoin (fsep e) (sn :: fs)).
+Proof.
+  intros H3 Hup Hmsh Hz Hl Hc Hrows Ht Hlen Hf.
+  assert (Hres : rows_resolved t srows).
+  { intros x Hx E. destruct (Hrows x Hx) as [fr [E' _]]. congruence. }
+  assert (Hinfo : forall row, In row srows -> exists r, row_ref t row = Some r /\ ref_info r <> None).
+  { intros row Hx. destruct (Hrows row Hx) as [fr [E' K]]. exists fr. split; [exact E'|].
+    destruct fr; try contradiction; discriminate. }
+  destruct (mk_segment_table sn srows H3 Hup Hz Hl Hc Hres Hinfo) as [st [inf [Hmk Hs]]].
+  destruct (seg_roundtrip t e leaf Hec sn H3 Hup Hmsh st inf (length srows) fs Hmk (rs_ordered _ _ _ _ _ Hs))
+    as [s [gs [Hp [Hch [Hg He]]]]]; auto.
+  - intros i Hi. now apply (rows_structure_known t sn FIE srows st i Hs Hres).
+  - intros i f Hif. destruct (Hf i f Hif) as [A [B C]]. split; [exact A|]. split; [exact B|].
+    destruct C as [->|[Hb [row [fr [Hn [Hr Hall]]]]]]; [now left|right]. split; [exact Hb|].
+    eapply Forall_impl; [|exact Hall]. intros r Hr'.
+    apply (field_rt_of_text sn H3 Hup Hmsh srows st Hs inf i row fr r Hn); auto.
+    + apply in_combine_seq in Hif. lia.
+    + apply Hrows. exact (nth_error_In _ _ Hn).
+  - exists s, gs. split; [exact Hp|]. split; [exact Hch|]. split; [|exact He].
+    eapply Forall2_impl; [|exact Hg]. intros [i f] g [[-> ->]|[Hb Hr]]; [now left|right].
+    split; [exact Hb|]. cbn [fst snd] in *. eapply Forall2_impl; [|exact Hr].
+    intros r x [_ [Hn He']]. split; assumption.
+Qed.
+
+End TableSeg.
